@@ -423,6 +423,13 @@ func init() {
 			// the composition of their processes stay as they were
 			rd := &Rng{s: r.s ^ 0x5eedd3fa17}
 			for i := 0; i < n/8; i++ {
+				if i%4 == 3 { // struct-mapped: the xstruct trial with container defaults on its `any` / list / map members
+					xgenRichDefaults = true
+					t := c13GenXStruct(rd, next(), pick(rd, ngs))
+					xgenRichDefaults = false
+					emit(t)
+					continue
+				}
 				emit(c13GenDefaults(rd, next(), pick(rd, ngs)))
 			}
 		},
